@@ -795,8 +795,30 @@ pub fn conc_record(args: &Args) -> i32 {
             streams.push(crate::gen::zlib_raw(&text, level, 0, 15, mem));
         }
     }
-    let nin = |f: usize| if f == 2 || f == 3 { streams.len() } else { files.len() };
-    const NFN: usize = 8;
+    // reconstructions that are refused part-way: correction data whose second half is zeroed.  (A
+    // decoder fed nonsense may run away; only cases that a child process with limits got through
+    // quickly are used in this process.)
+    let mut refused: Vec<(Vec<u8>, Vec<u8>)> = Vec::new();
+    // (multi-block streams first: the refusal should come after some blocks have been written)
+    for st in streams.iter().rev().take(8) {
+        if refused.len() >= 8 { break; }
+        if let Ok(Ok(r)) = guarded(|| decompress_deflate_stream(st, false, 0)) {
+            if r.prediction_corrections.len() < 16 { continue; }
+            for cut in [2usize, 8] {
+                let mut c2 = r.prediction_corrections.clone();
+                let n = c2.len();
+                for b in c2[n - n / cut..].iter_mut() { *b = 0; }
+                let plain = r.plain_text.clone();
+                let t0 = std::time::Instant::now();
+                let probe = isolated(1 << 30, 5, || vec![recompress_deflate_stream(&plain, &c2).is_ok() as u8]);
+                if probe.is_ok() && t0.elapsed().as_secs() < 3 {
+                    refused.push((plain, c2));
+                }
+            }
+        }
+    }
+    let nin = |f: usize| if f == 2 || f == 3 { streams.len() } else if f == 8 { refused.len() } else { files.len() };
+    const NFN: usize = 9;
     // the C wrappers, with the caller's input always in the same per-thread buffer (a caller that
     // reuses one I/O buffer): 6 = compress, 7 = compress into a buffer that is far too small
     thread_local! { static INBUF: std::cell::RefCell<Vec<u8>> = std::cell::RefCell::new(Vec::with_capacity(16 << 20)); }
@@ -835,7 +857,8 @@ pub fn conc_record(args: &Args) -> i32 {
                 Err(_) => 9,
             },
             6 => wrapper(x, false),
-            _ => wrapper(x, true),
+            7 => wrapper(x, true),
+            _ => match recompress_deflate_stream(&refused[x].0, &refused[x].1) { Ok(v) => fnv(&v), Err(_) => 10 },
         });
         r.unwrap_or(6)
     };
